@@ -710,7 +710,11 @@ func (w *w1World) checkMediumOrder(in *w1Instance) {
 	for i := 1; i < len(recs); i++ {
 		a, b := recs[i-1], recs[i]
 		if b.RetSeq != 0 && b.RetSeq < a.Seq {
-			s.Violate("C38", "order", "publications reordered by the channel medium", "client %d %s: %s (publish returned at %d) delivered after %s (publish began at %d)", in.cl.idx, in.ch, b.Data, b.RetSeq, a.Data, a.Seq)
+			sig := "publications reordered by the channel medium"
+			if w.pubsub != nil && w.pubsub.resubscribed[in.ch] {
+				sig += " (channel emptied and re-subscribed before the deferred broker unsubscribe ran: two medium instances alive)"
+			}
+			s.Violate("C38", "order", sig, "client %d %s: %s (publish returned at %d) delivered after %s (publish began at %d)", in.cl.idx, in.ch, b.Data, b.RetSeq, a.Data, a.Seq)
 		}
 	}
 }
